@@ -7,6 +7,7 @@ one function body would otherwise lose sight of the moved code.  `inlined(repo_m
     target = self.h(args) | cls.h(args) | Class.h(args) | h(args)        (h: private method of the same class, module-level
     self.h(args)   (expression statement)                                  private function, or function defined locally)
     return self.h(args)
+    if self.h(args): ... / if not self.h(args): ...
 
 are replaced by the body of h with parameters bound to the arguments, locals renamed apart, and `return e` turned into an
 assignment to the target (code after an early return moves into the else branch).  Helpers that contain loops with returns,
@@ -213,6 +214,23 @@ def inlined(module, func, depth=2):
                 if rep is not None:
                     out.extend(rep)
                     continue
+                if isinstance(st, ast.If):
+                    # `if self._pred(x):` / `if not self._pred(x):` - the predicate's body decides a fresh local first
+                    t = st.test
+                    neg = isinstance(t, ast.UnaryOp) and isinstance(t.op, ast.Not)
+                    tc = t.operand if neg else t
+                    if isinstance(tc, ast.Call):
+                        h, is_m = resolve(tc)
+                        if h is not None:
+                            _COUNTER[0] += 1
+                            tmp = f"__t{_COUNTER[0]}"
+                            pre = _expand(tc, "assign", [ast.Name(id=tmp, ctx=ast.Store())], h, is_m)
+                            if pre is not None:
+                                used.append(h.name)
+                                changed[0] = True
+                                nm = ast.copy_location(ast.Name(id=tmp, ctx=ast.Load()), tc)
+                                st.test = ast.copy_location(ast.UnaryOp(op=ast.Not(), operand=nm), t) if neg else nm
+                                out.extend(pre)
                 for field in ("body", "orelse", "finalbody"):
                     if hasattr(st, field) and isinstance(getattr(st, field), list) and not isinstance(st, FUNC):
                         setattr(st, field, process(getattr(st, field)))
